@@ -302,6 +302,13 @@ func c20Run(inI interface{}, env *Env) *Failure {
 			return time.Duration(in.LatencyMS[calls%len(in.LatencyMS)]) * time.Millisecond
 		}
 		i18 := i18mem.NewI18N()
+		// a view may ask for a key before the translations are loaded (it gets an error then);
+		// that must not keep the key from being translatable afterwards
+		for i, k := range sortedNamesS(expected) {
+			if i%5 == 0 {
+				_, _ = i18.Translate(k)
+			}
+		}
 		loadErr = fsi18loader.Load(NewFaultFS(mem, st), in.Base, i18, nil)
 		if in.Second && loadErr == nil {
 			// the store is filled by several loads (one per module directory, say): what the
